@@ -142,6 +142,13 @@ func suiteMigrate(c *Ctx) error {
 					}
 				}
 			}
+			if variant == 0 && n >= 5 {
+				// IDs that differ only in a character that does not show (zero-width space, control
+				// character, trailing blank): distinct signatures all the same
+				l[1].ID = l[0].ID + "\u200b"
+				l[2].ID = l[0].ID + "\x01"
+				l[3].ID = l[0].ID + " "
+			}
 			if variant == 1 && n >= 2 {
 				name = fmt.Sprintf("n%d-repeats", n)
 				// repeated IDs: adjacent, far apart (across batch boundaries when n > 1000), and a triple
